@@ -1,14 +1,17 @@
 import Driver.Kern
+import Driver.KernShare
 import Driver.Preds
 import Driver.Suite
 import Driver.Convert
 import Driver.CL
+import Driver.ShareClass
 open Sunrise.Driver
 
 def evalLine (line : String) : String :=
   match tokens line with
   | "D" :: rest => evalD rest
   | "K" :: rest => evalK rest
+  | "KS" :: rest => evalKS rest
   | "P" :: rest => evalP rest
   | _ => "bad-op"
 
@@ -19,10 +22,11 @@ partial def loop (h : IO.FS.Stream) (out : IO.FS.Stream) : IO Unit := do
   loop h out
 
 /-- stateful suites: first input line `suite <name>` -/
-def suites : List (String × (IO.FS.Stream → IO.FS.Stream → IO Unit)) := [
-  ("convert", ConvertSuite.run),
-  ("cl", CLSuite.run)
-]
+def suites : List (String × (IO.FS.Stream → IO.FS.Stream → IO Unit)) :=
+  [("convert", ConvertSuite.run)] ++
+  [("cl", CLSuite.run)] ++
+  [("share", ShareSuite.run)] ++
+  []
 
 def main : IO Unit := do
   let out ← IO.getStdout
